@@ -225,9 +225,39 @@ def unchecked_decls(tier='quick') -> List[Decl]:
     return out
 
 
+def thorough_int_decls(seed=0) -> List[Decl]:
+    """thorough tier: every permutation of {lower, upper, predicate} validators per integer type, and
+    VERIF_SEED-driven random literal bounds (the seed only chooses declarations; inputs stay universal)"""
+    out = []
+    rnd = random.Random(seed)
+    for t in INT_TYPES:
+        bl, n1 = aux.sym_bound('lo', t)
+        bu, n2 = aux.sym_bound('hi', t)
+        p, n3 = aux.custom('pred', t)
+        for lo in LOWER:
+            for up in UPPER:
+                vs = [Validator(lo, bl), Validator(up, bu), Validator('predicate', fn=p)]
+                for pi, perm in enumerate(itertools.permutations(vs)):
+                    out.append(mk('perm_%s_%s_%s_%d' % (t, lo, up, pi), 'int', t, validators=list(perm), aux=[n1, n2, n3],
+                                  derives=['Debug', 'TryFrom'], props=['C01', 'C03', 'C05', 'C07']))
+        mn, mx = int_min(t), int_max(t)
+        for i in range(4):
+            a = rnd.randint(mn, mx)
+            b = rnd.randint(mn, mx)
+            lo_v, hi_v = min(a, b), max(a, b)
+            ks = (rnd.choice(LOWER), rnd.choice(UPPER))
+            out.append(mk('rand_%s_%d_s%d' % (t, i, seed), 'int', t,
+                          validators=[Validator(ks[0], aux.lit_bound(lo_v, t)), Validator(ks[1], aux.lit_bound(hi_v, t))],
+                          derives=['Debug', 'TryFrom', 'AsRef', 'Into'], props=['C01', 'C02', 'C03', 'C05', 'C07', 'C13']))
+    return out
+
+
 def verus_catalogue(tier='quick', seed=0) -> List[Decl]:
     from .spellings import string_spellings
-    return int_decls(tier) + string_decls(tier) + any_decls(tier) + string_spellings(tier) + unchecked_decls(tier)
+    out = int_decls(tier) + string_decls(tier) + any_decls(tier) + string_spellings(tier) + unchecked_decls(tier)
+    if tier == 'thorough':
+        out += thorough_int_decls(seed)
+    return out
 
 
 def all_decls(tier='thorough', seed=0):
